@@ -139,3 +139,851 @@ Proof.
   destruct G as [(H1 & H2 & _ & H4)|(l1 & v & l2 & Hl & H1 & H2 & _ & H4)]; [left|right]; eauto 10.
 Qed.
 End Last.
+Lemma skipn_add {X} (l : list X) a b : skipn a (skipn b l) = skipn (b + a) l.
+Proof.
+  revert l; induction b as [|b IH]; intro l; [reflexivity|].
+  destruct l as [|x l]; [destruct a; reflexivity|]. cbn [skipn Nat.add]. apply IH.
+Qed.
+
+(* ------------------------------------------------------------------ the state inside row i *)
+Section Row.
+Context {S : Scalar}.
+Local Notation row := (list (nat * S)).
+Local Notation wrow := (@wrow S).
+Variables (n i : nat) (Ls Us : list row) (D : list S).
+Hypothesis HD : length D = i.
+Hypothesis Hi : i < n.
+Local Notation L0 := (length (concat Ls)).
+Local Notation U0 := (length (concat Us)).
+
+(* work[c] *)
+Definition wptr (w : wrow) (c : nat) : option wp :=
+  if Nat.ltb c i then option_map (fun k => WL (L0 + k)) (lastidx c (map fst (wL w)))
+  else if Nat.eqb c i then (if whasd w then Some (WD i) else None)
+  else option_map (fun k => WU (U0 + k)) (lastidx c (map fst (wU w))).
+Definition wkl (w : wrow) : list (option wp) := map (wptr w) (seq 0 n).
+Definition wshape (w : wrow) : list nat * bool * list nat := (map fst (wL w), whasd w, map fst (wU w)).
+
+Lemma wshape_hasd w w' : wshape w = wshape w' -> whasd w = whasd w'.
+Proof. unfold wshape. intro H. injection H as _ H _. exact H. Qed.
+Lemma wshape_L w w' : wshape w = wshape w' -> map fst (wL w) = map fst (wL w').
+Proof. unfold wshape. intro H. injection H as H _ _. exact H. Qed.
+Lemma wshape_U w w' : wshape w = wshape w' -> map fst (wU w) = map fst (wU w').
+Proof. unfold wshape. intro H. injection H as _ _ H. exact H. Qed.
+Lemma wptr_shape w w' c : wshape w = wshape w' -> wptr w c = wptr w' c.
+Proof. unfold wshape, wptr. intro H. injection H as H1 H2 H3. rewrite H1, H2, H3. reflexivity. Qed.
+Lemma wkl_shape w w' : wshape w = wshape w' -> wkl w = wkl w'.
+Proof. intro H. unfold wkl. apply map_ext. intro c. apply wptr_shape. exact H. Qed.
+Lemma wkl_length w : length (wkl w) = n.
+Proof. unfold wkl. rewrite map_length, seq_length. reflexivity. Qed.
+
+Lemma upd_last_fst c f (r : row) : map fst (upd_last c f r) = map fst r.
+Proof.
+  induction r as [|e r IH]; simpl; [reflexivity|].
+  destruct (has_col c r); simpl; [rewrite IH; reflexivity|].
+  destruct (Nat.eqb (fst e) c); reflexivity.
+Qed.
+Lemma wupd_shape w c f : wshape (wupd i w c f) = wshape w.
+Proof.
+  unfold wupd, wshape. destruct (Nat.ltb c i); cbn [wL whasd wU].
+  - rewrite upd_last_fst. reflexivity.
+  - destruct (Nat.eqb c i).
+    + destruct (whasd w) eqn:E; cbn [wL whasd wU]; rewrite ?E; reflexivity.
+    + cbn [wL whasd wU]. rewrite upd_last_fst. reflexivity.
+Qed.
+Lemma fold_wupd_shape {X} (g : X -> nat) (h : X -> S -> S) (l : list X) w :
+  wshape (fold_left (fun w u => wupd i w (g u) (h u)) l w) = wshape w.
+Proof. revert w; induction l as [|u l IH]; intro w; [reflexivity|]. cbn [fold_left]. rewrite IH. apply wupd_shape. Qed.
+
+Definition rowst (lp up tlc : marr nat) (tlv : marr S) (tuc : marr nat) (tuv : marr S) (w : wrow) : ist S :=
+  mkI lp (filled (map fst (concat Ls)) ++ filled (map fst (wL w)) ++ tlc)
+         (filled (map snd (concat Ls)) ++ filled (map snd (wL w)) ++ tlv)
+      up (filled (map fst (concat Us)) ++ filled (map fst (wU w)) ++ tuc)
+         (filled (map snd (concat Us)) ++ filled (map snd (wU w)) ++ tuv)
+      (filled D ++ (if whasd w then Some (wd w) else None) :: fresh (n - i - 1))
+      (filled (wkl w)) (L0 + length (wL w)) (U0 + length (wU w)).
+
+Lemma wk_rd w c : c < n -> mrd (filled (wkl w)) c = Done (wptr w c).
+Proof.
+  intro Hc. rewrite (mrd_filled _ c None) by (rewrite wkl_length; exact Hc).
+  unfold wkl. rewrite nth_map_seq by exact Hc. reflexivity.
+Qed.
+
+Lemma wupd_none w c f : wptr w c = None -> wupd i w c f = w.
+Proof.
+  unfold wptr, wupd. destruct (Nat.ltb c i).
+  - destruct (last_split c (wL w)) as [(H1 & _ & H3)|(l1 & v & l2 & _ & H1 & _)]; rewrite H1; [|discriminate].
+    intros _. rewrite H3. destruct w; reflexivity.
+  - destruct (Nat.eqb c i).
+    + destruct (whasd w); [discriminate|reflexivity].
+    + destruct (last_split c (wU w)) as [(H1 & _ & H3)|(l1 & v & l2 & _ & H1 & _)]; rewrite H1; [|discriminate].
+      intros _. rewrite H3. destruct w; reflexivity.
+Qed.
+
+Section Fixed.
+Variables (lp up tlc : marr nat) (tlv : marr S) (tuc : marr nat) (tuv : marr S).
+Local Notation rst := (rowst lp up tlc tlv tuc tuv).
+
+Lemma wp_access w c q : wptr w c = Some q ->
+  exists v, wp_rd (Some q) (rst w) = Done v /\ (c < i -> get_last c (wL w) = Some v) /\
+            forall f, wp_wr (Some q) (rst w) (f v) = Done (rst (wupd i w c f)).
+Proof.
+  unfold wptr, wupd. destruct (Nat.ltb_spec c i) as [Hlt|Hge].
+  - destruct (last_split c (wL w)) as [(H1 & _)|(l1 & v & l2 & Hw & H1 & H2 & H4)]; rewrite H1; [discriminate|].
+    cbn [option_map]. intro Hq. injection Hq as <-. exists v.
+    destruct w as [wl d h wu]. cbn [wL wd whasd wU] in *. subst wl.
+    split; [|split; [intros _; exact H2|]].
+    + cbn [wp_rd rowst ilv wL]. rewrite map_app. cbn [map snd]. apply mrd_mid.
+      rewrite filled_length, !map_length. reflexivity.
+    + intro f. cbn [wp_wr rowst ilv ilp ilc iup iuc iuv idd iwk ilh iuh wL wU wd whasd].
+      rewrite map_app. cbn [map snd].
+      rewrite (mwr_mid _ _ _ _ _ (L0 + length l1)) by (rewrite filled_length, !map_length; reflexivity).
+      cbn [mbind]. rewrite H4. f_equal. unfold rowst. cbn [wL wd whasd wU].
+      rewrite !map_app, !app_length. cbn [map fst snd length].
+      f_equal. f_equal. apply wkl_shape. unfold wshape. cbn [wL wd whasd wU]. rewrite !map_app. reflexivity.
+  - destruct (Nat.eqb_spec c i) as [->|Hne].
+    + destruct w as [wl d h wu]. cbn [wL wd whasd wU] in *. destruct h; [|discriminate].
+      intro Hq. injection Hq as <-. exists d. split; [|split; [lia|]].
+      * cbn [wp_rd rowst idd whasd wd]. apply mrd_app_len. rewrite filled_length. exact HD.
+      * intro f. cbn [wp_wr rowst ilv ilp ilc iup iuc iuv idd iwk ilh iuh wL wU wd whasd].
+        rewrite (mwr_app_len _ _ _ _ i) by (rewrite filled_length; exact HD). cbn [mbind]. reflexivity.
+    + destruct (last_split c (wU w)) as [(H1 & _)|(l1 & v & l2 & Hw & H1 & H2 & H4)]; rewrite H1; [discriminate|].
+      cbn [option_map]. intro Hq. injection Hq as <-. exists v.
+      destruct w as [wl d h wu]. cbn [wL wd whasd wU] in *. subst wu.
+      split; [|split; [lia|]].
+      * cbn [wp_rd rowst iuv wU]. rewrite map_app. cbn [map snd]. apply mrd_mid.
+        rewrite filled_length, !map_length. reflexivity.
+      * intro f. cbn [wp_wr rowst ilv ilp ilc iup iuc iuv idd iwk ilh iuh wL wU wd whasd].
+        rewrite map_app. cbn [map snd].
+        rewrite (mwr_mid _ _ _ _ _ (U0 + length l1)) by (rewrite filled_length, !map_length; reflexivity).
+        cbn [mbind]. rewrite H4. f_equal. unfold rowst. cbn [wL wd whasd wU].
+        rewrite !map_app, !app_length. cbn [map fst snd length].
+        f_equal. f_equal. apply wkl_shape. unfold wshape. cbn [wL wd whasd wU]. rewrite !map_app. reflexivity.
+Qed.
+
+Lemma rst_ilp w : ilp (rst w) = lp. Proof. reflexivity. Qed.
+Lemma rst_iup w : iup (rst w) = up. Proof. reflexivity. Qed.
+Lemma rst_ilc w : ilc (rst w) = filled (map fst (concat Ls)) ++ filled (map fst (wL w)) ++ tlc. Proof. reflexivity. Qed.
+Lemma rst_ilv w : ilv (rst w) = filled (map snd (concat Ls)) ++ filled (map snd (wL w)) ++ tlv. Proof. reflexivity. Qed.
+Lemma rst_iuc w : iuc (rst w) = filled (map fst (concat Us)) ++ filled (map fst (wU w)) ++ tuc. Proof. reflexivity. Qed.
+Lemma rst_iuv w : iuv (rst w) = filled (map snd (concat Us)) ++ filled (map snd (wU w)) ++ tuv. Proof. reflexivity. Qed.
+Lemma rst_idd w : idd (rst w) = filled D ++ (if whasd w then Some (wd w) else None) :: fresh (n - i - 1). Proof. reflexivity. Qed.
+Lemma rst_iwk w : iwk (rst w) = filled (wkl w). Proof. reflexivity. Qed.
+Lemma rst_ilh w : ilh (rst w) = L0 + length (wL w). Proof. reflexivity. Qed.
+Lemma rst_iuh w : iuh (rst w) = U0 + length (wU w). Proof. reflexivity. Qed.
+
+Hypothesis HUs : length Us = i.
+Hypothesis Hup : forall c, c <= i -> mrd up c = Done (length (concat (firstn c Us))).
+
+Lemma lincomb_step_ok tl w (u : nat * S) k : nth_error (concat Us) k = Some u -> fst u < n ->
+  lincomb_body tl k (rst w) = Done (rst (wupd i w (fst u) (fun v => v - tl * snd u)%S)).
+Proof.
+  intros Hk Hu. unfold lincomb_body. rewrite rst_iuc.
+  rewrite (mrd_pre_map fst _ _ k u Hk). cbn [mbind].
+  rewrite rst_iwk, wk_rd by exact Hu. cbn [mbind].
+  destruct (wptr w (fst u)) as [q|] eqn:E.
+  - destruct (wp_access w (fst u) q E) as (v & Hr & _ & Hw).
+    rewrite Hr. cbn [mbind]. rewrite rst_iuv, (mrd_pre_map snd _ _ k u Hk). cbn [mbind].
+    exact (Hw (fun v => v - tl * snd u)%S).
+  - rewrite wupd_none by exact E. reflexivity.
+Qed.
+
+Lemma lincomb_loop tl : forall (rc : row) k w,
+  (forall j, j < length rc -> nth_error (concat Us) (k + j) = Some (nth j rc (0, s0))) ->
+  Forall (fun e => fst e < n) rc ->
+  mfor k (length rc) (lincomb_body tl) (rst w)
+  = Done (rst (fold_left (fun w u => wupd i w (fst u) (fun v => v - tl * snd u)%S) rc w)).
+Proof.
+  induction rc as [|u rc IH]; intros k w Hk Hn; [reflexivity|].
+  cbn [length]. rewrite mfor_step. inversion Hn as [|? ? Hu Hn']; subst.
+  rewrite (lincomb_step_ok tl w u k);
+    [|specialize (Hk 0 ltac:(simpl; lia)); rewrite Nat.add_0_r in Hk; exact Hk|exact Hu].
+  cbn [mbind fold_left]. apply IH; [|exact Hn'].
+  intros j Hj. replace (Datatypes.S k + j) with (k + Datatypes.S j) by lia. apply (Hk (Datatypes.S j)). simpl; lia.
+Qed.
+
+Hypothesis HUn : Forall (Forall (fun e : nat * S => fst e < n)) Us.
+
+Lemma elim_ok (F : fcrs S) : forall (ents : row) j w,
+  whasd w = true ->
+  Forall (fun e => fst e < n) ents ->
+  (forall e, In e ents -> fst e < i -> In (fst e) (map fst (wL w))) ->
+  (forall k, k < length ents -> ird (fcol F) (j + k) = Done (fst (nth k ents (0, s0)))) ->
+  elim_loop F i j (length ents) (rst w)
+  = match ilu0_elim i Us D ents w with
+    | Ilu.Err e => Done (EThrow e)
+    | Ilu.Ok w' => Done (EOk (rst w'))
+    end.
+Proof.
+  induction ents as [|e ents IH]; intros j w Hh Hn Hin Hrd; [reflexivity|].
+  cbn [length elim_loop ilu0_elim].
+  pose proof (Hrd 0 ltac:(simpl; lia)) as H0. rewrite Nat.add_0_r in H0. cbn [nth] in H0. rewrite H0. cbn [mbind].
+  inversion Hn as [|? ? He Hn']; subst.
+  destruct (Nat.leb_spec i (fst e)) as [Hge|Hlt].
+  - destruct (Nat.eqb_spec (fst e) i) as [Heq|Hne]; cbn [negb]; [|reflexivity].
+    rewrite rst_idd, Hh. rewrite (mrd_app_len _ _ _ i) by (rewrite filled_length; exact HD). cbn [mbind].
+    destruct (is_zero (wd w)); [reflexivity|].
+    rewrite (mwr_app_len _ _ _ _ i) by (rewrite filled_length; exact HD). cbn [mbind].
+    f_equal. f_equal. destruct w as [wl d h wu]. cbn [wL wd whasd wU] in *. subst h. reflexivity.
+  - rewrite rst_iwk, wk_rd by exact He. cbn [mbind].
+    destruct (lastidx_in (fst e) _ (Hin e (or_introl eq_refl) Hlt)) as (k0 & Hk0).
+    assert (E : wptr w (fst e) = Some (WL (L0 + k0))).
+    { unfold wptr. destruct (Nat.ltb_spec (fst e) i); [|lia]. rewrite Hk0. reflexivity. }
+    rewrite E. destruct (wp_access w (fst e) _ E) as (v & Hr & Hg & Hw). rewrite Hr. cbn [mbind].
+    rewrite rst_idd, (mrd_pre D _ (fst e) s0) by lia. cbn [mbind].
+    pose proof (Hw (fun _ => (v * nth (fst e) D s0)%S)) as Hw1. cbv beta in Hw1. rewrite Hw1. cbn [mbind].
+    rewrite rst_iup, (Hup (fst e)), (Hup (fst e + 1)) by lia. cbn [mbind].
+    rewrite concat_firstn_S by lia. rewrite app_length.
+    replace (length (concat (firstn (fst e) Us)) + length (nth (fst e) Us []) - length (concat (firstn (fst e) Us)))
+      with (length (nth (fst e) Us [])) by lia.
+    rewrite lincomb_loop.
+    2:{ intros j0 Hj0. apply nth_error_concat; [lia|exact Hj0]. }
+    2:{ destruct (nth_in_or_default (fst e) Us []) as [Hi1|Hd1]; [|rewrite Hd1; constructor].
+        rewrite Forall_forall in HUn. apply HUn. exact Hi1. }
+    cbn [mbind]. unfold wgetL. rewrite (Hg Hlt). unfold vget.
+    apply IH.
+    + rewrite <- Hh. apply wshape_hasd. rewrite fold_wupd_shape. apply wupd_shape.
+    + exact Hn'.
+    + intros e' He' Hlt'.
+      rewrite (wshape_L _ w); [apply Hin; [right; exact He'|exact Hlt']|].
+      rewrite fold_wupd_shape. apply wupd_shape.
+    + intros k Hk. replace (Datatypes.S j + k) with (j + Datatypes.S k) by lia. apply (Hrd (Datatypes.S k)). simpl; lia.
+Qed.
+
+End Fixed.
+
+(* ---------------- first loop: scatter ---------------- *)
+Definition sstep (w : wrow) (e : nat * S) : wrow :=
+  if Nat.ltb (fst e) i then mkW (wL w ++ [e]) (wd w) (whasd w) (wU w)
+  else if Nat.eqb (fst e) i then mkW (wL w) (snd e) true (wU w)
+  else mkW (wL w) (wd w) (whasd w) (wU w ++ [e]).
+Lemma scatter_fold r jd : ilu0_scatter i r jd = fold_left sstep r (mkW [] jd false []).
+Proof. reflexivity. Qed.
+
+Definition scat_h (e : nat * S) (st : ist S) : mres (ist S) :=
+  if Nat.ltb (fst e) i then
+    lc <-- mwr (ilc st) (ilh st) (fst e) ;;
+    lv <-- mwr (ilv st) (ilh st) (snd e) ;;
+    wk <-- mwr (iwk st) (fst e) (Some (WL (ilh st))) ;;
+    Done (mkI (ilp st) lc lv (iup st) (iuc st) (iuv st) (idd st) wk (Datatypes.S (ilh st)) (iuh st))
+  else if Nat.eqb (fst e) i then
+    dd <-- mwr (idd st) i (snd e) ;;
+    wk <-- mwr (iwk st) (fst e) (Some (WD i)) ;;
+    Done (mkI (ilp st) (ilc st) (ilv st) (iup st) (iuc st) (iuv st) dd wk (ilh st) (iuh st))
+  else
+    uc <-- mwr (iuc st) (iuh st) (fst e) ;;
+    uv <-- mwr (iuv st) (iuh st) (snd e) ;;
+    wk <-- mwr (iwk st) (fst e) (Some (WU (iuh st))) ;;
+    Done (mkI (ilp st) (ilc st) (ilv st) (iup st) uc uv (idd st) wk (ilh st) (Datatypes.S (iuh st))).
+Lemma scatter_body_h (F : fcrs S) j c v st : ird (fcol F) j = Done c -> ird (fval F) j = Done v ->
+  scatter_body F i j st = scat_h (c, v) st.
+Proof. intros Hc Hv. unfold scatter_body, scat_h. rewrite Hc, Hv. reflexivity. Qed.
+
+Lemma wkl_upd w w' c : c < n -> (forall c', c' <> c -> wptr w' c' = wptr w c') ->
+  upd (wkl w) c (wptr w' c) = wkl w'.
+Proof.
+  intros Hc H. apply nth_ext with (d := None) (d' := None); [rewrite upd_length, !wkl_length; reflexivity|].
+  intros k Hk. rewrite upd_length, wkl_length in Hk. rewrite upd_nth by (rewrite wkl_length; exact Hc).
+  unfold wkl. rewrite !nth_map_seq by exact Hk.
+  destruct (Nat.eqb_spec k c) as [->|Hne]; [reflexivity|]. symmetry. apply H. exact Hne.
+Qed.
+
+Definition lcnt (r : row) : nat := length (filter (fun e => Nat.ltb (fst e) i) r).
+Definition ucnt (r : row) : nat := length (filter (fun e => Nat.ltb i (fst e)) r).
+
+Lemma scat_step lp up tlc tlv tuc tuv w e : fst e < n ->
+  lcnt [e] <= length tlc -> lcnt [e] <= length tlv -> ucnt [e] <= length tuc -> ucnt [e] <= length tuv ->
+  scat_h e (rowst lp up tlc tlv tuc tuv w)
+  = Done (rowst lp up (skipn (lcnt [e]) tlc) (skipn (lcnt [e]) tlv) (skipn (ucnt [e]) tuc) (skipn (ucnt [e]) tuv) (sstep w e)).
+Proof.
+  intro He. unfold scat_h, sstep, lcnt, ucnt. cbn [filter].
+  destruct (Nat.ltb_spec (fst e) i) as [Hlt|Hge].
+  - destruct (Nat.ltb_spec i (fst e)) as [Hlt2|_]; [lia|]. cbn [length skipn]. intros H1 H2 _ _.
+    destruct tlc as [|x tlc]; [simpl in H1; lia|]. destruct tlv as [|y tlv]; [simpl in H2; lia|].
+    cbn [rowst ilp ilc ilv iup iuc iuv idd iwk ilh iuh].
+    rewrite (mwr_tail _ _ _ _ (L0 + length (wL w))) by (rewrite filled_length, !map_length; reflexivity). cbn [mbind].
+    rewrite (mwr_tail _ _ _ _ (L0 + length (wL w))) by (rewrite filled_length, !map_length; reflexivity). cbn [mbind].
+    rewrite mwr_filled by (rewrite wkl_length; exact He). cbn [mbind]. f_equal.
+    unfold rowst. cbn [wL wd whasd wU]. rewrite !map_app, app_length. cbn [map length].
+    f_equal; [|lia]. f_equal.
+    set (w' := mkW (wL w ++ [e]) (wd w) (whasd w) (wU w)).
+    assert (E : Some (WL (L0 + length (wL w))) = wptr w' (fst e)).
+    { unfold wptr, w'. cbn [wL]. destruct (Nat.ltb_spec (fst e) i); [|lia].
+      rewrite map_app. cbn [map]. rewrite lastidx_snoc_same, map_length. reflexivity. }
+    rewrite E. apply wkl_upd; [exact He|]. intros c' Hc'. unfold wptr, w'. cbn [wL whasd wU].
+    rewrite map_app. cbn [map]. rewrite lastidx_snoc_other by congruence. reflexivity.
+  - destruct (Nat.eqb_spec (fst e) i) as [Heq|Hne].
+    + destruct (Nat.ltb_spec i (fst e)) as [Hlt2|_]; [lia|]. cbn [length skipn]. intros _ _ _ _.
+      cbn [rowst ilp ilc ilv iup iuc iuv idd iwk ilh iuh].
+      rewrite (mwr_app_len _ _ _ _ i) by (rewrite filled_length; exact HD). cbn [mbind].
+      rewrite mwr_filled by (rewrite wkl_length; exact He). cbn [mbind]. f_equal.
+      unfold rowst. cbn [wL wd whasd wU]. f_equal. f_equal.
+      set (w' := mkW (wL w) (snd e) true (wU w)).
+      assert (E : Some (WD i) = wptr w' (fst e)).
+      { unfold wptr, w'. cbn [whasd]. destruct (Nat.ltb_spec (fst e) i); [lia|].
+        destruct (Nat.eqb_spec (fst e) i); [reflexivity|lia]. }
+      rewrite E. apply wkl_upd; [exact He|]. intros c' Hc'. unfold wptr, w'. cbn [wL whasd wU].
+      destruct (Nat.ltb c' i); [reflexivity|]. destruct (Nat.eqb_spec c' i); [congruence|reflexivity].
+    + destruct (Nat.ltb_spec i (fst e)) as [_|Hle]; [|lia]. cbn [length skipn]. intros _ _ H1 H2.
+      destruct tuc as [|x tuc]; [simpl in H1; lia|]. destruct tuv as [|y tuv]; [simpl in H2; lia|].
+      cbn [rowst ilp ilc ilv iup iuc iuv idd iwk ilh iuh].
+      rewrite (mwr_tail _ _ _ _ (U0 + length (wU w))) by (rewrite filled_length, !map_length; reflexivity). cbn [mbind].
+      rewrite (mwr_tail _ _ _ _ (U0 + length (wU w))) by (rewrite filled_length, !map_length; reflexivity). cbn [mbind].
+      rewrite mwr_filled by (rewrite wkl_length; exact He). cbn [mbind]. f_equal.
+      unfold rowst. cbn [wL wd whasd wU]. rewrite !map_app, app_length. cbn [map length].
+      f_equal; [|lia]. f_equal.
+      set (w' := mkW (wL w) (wd w) (whasd w) (wU w ++ [e])).
+      assert (E : Some (WU (U0 + length (wU w))) = wptr w' (fst e)).
+      { unfold wptr, w'. cbn [wU]. destruct (Nat.ltb_spec (fst e) i); [lia|].
+        destruct (Nat.eqb_spec (fst e) i); [lia|].
+        rewrite map_app. cbn [map]. rewrite lastidx_snoc_same, map_length. reflexivity. }
+      rewrite E. apply wkl_upd; [exact He|]. intros c' Hc'. unfold wptr, w'. cbn [wL whasd wU].
+      rewrite map_app. cbn [map]. rewrite lastidx_snoc_other by congruence. reflexivity.
+Qed.
+
+Lemma lcnt_cons e r : lcnt (e :: r) = lcnt [e] + lcnt r.
+Proof. unfold lcnt. cbn [filter]. destruct (Nat.ltb (fst e) i); reflexivity. Qed.
+Lemma ucnt_cons e r : ucnt (e :: r) = ucnt [e] + ucnt r.
+Proof. unfold ucnt. cbn [filter]. destruct (Nat.ltb i (fst e)); reflexivity. Qed.
+
+Lemma scatter_ok lp up : forall (r : row) tlc tlv tuc tuv w,
+  Forall (fun e => fst e < n) r ->
+  lcnt r <= length tlc -> lcnt r <= length tlv -> ucnt r <= length tuc -> ucnt r <= length tuv ->
+  mfoldl scat_h r (rowst lp up tlc tlv tuc tuv w)
+  = Done (rowst lp up (skipn (lcnt r) tlc) (skipn (lcnt r) tlv) (skipn (ucnt r) tuc) (skipn (ucnt r) tuv)
+                (fold_left sstep r w)).
+Proof.
+  induction r as [|e r IH]; intros tlc tlv tuc tuv w Hn H1 H2 H3 H4; [reflexivity|].
+  inversion Hn as [|? ? He Hn']; subst.
+  rewrite lcnt_cons in H1, H2 |- *. rewrite ucnt_cons in H3, H4 |- *.
+  cbn [mfoldl fold_left]. rewrite scat_step by (try exact He; lia). cbn [mbind].
+  rewrite IH by (try exact Hn'; rewrite skipn_length; lia).
+  rewrite !skipn_add. reflexivity.
+Qed.
+End Row.
+Lemma fresh_pos {X} k : 0 < k -> @fresh X k = None :: fresh (k - 1).
+Proof. destruct k as [|k]; [lia|]. intros _. cbn [Nat.sub]. rewrite Nat.sub_0_r. reflexivity. Qed.
+
+(* ------------------------------------------------------------------ in-place compaction *)
+Section Compact.
+Context {S : Scalar}.
+Local Notation row := (list (nat * S)).
+
+Definition cbody (j : nat) (s : marr nat * marr S * nat) : mres (marr nat * marr S * nat) :=
+  let '(col, val, head) := s in
+  v <-- mrd val j ;;
+  if negb (is_zero v) then
+    cj <-- mrd col j ;;
+    col' <-- mwr col head cj ;;
+    val' <-- mwr val head v ;;
+    Done (col', val', Datatypes.S head)
+  else Done s.
+Lemma compact_unfold ptr col val i :
+  compact ptr col val i = (h0 <-- mrd ptr i ;; e <-- mrd ptr (i + 1) ;; mfor h0 (e - h0) cbody (col, val, h0)).
+Proof. reflexivity. Qed.
+
+Lemma compact_loop : forall (todo kept : row) (P : marr nat) (Pv : marr S) (X : marr nat) (Xv : marr S) T Tv,
+  length P = length Pv -> length X = length Xv ->
+  exists X' Xv',
+    mfor (length P + length kept + length X) (length todo) cbody
+      (P ++ filled (map fst kept) ++ X ++ filled (map fst todo) ++ T,
+       Pv ++ filled (map snd kept) ++ Xv ++ filled (map snd todo) ++ Tv, length P + length kept)
+    = Done (P ++ filled (map fst (kept ++ drop_zeros todo)) ++ X' ++ T,
+            Pv ++ filled (map snd (kept ++ drop_zeros todo)) ++ Xv' ++ Tv,
+            length P + length (kept ++ drop_zeros todo)) /\
+    length X' = length Xv' /\ length X' + length (drop_zeros todo) = length X + length todo.
+Proof.
+  induction todo as [|[c v] todo IH]; intros kept P Pv X Xv T Tv HP HX.
+  - exists X, Xv. cbn [drop_zeros filter length map filled app]. rewrite app_nil_r.
+    split; [reflexivity|]. split; [exact HX|lia].
+  - cbn [length map fst snd]. rewrite mfor_step. unfold cbody at 1.
+    change (filled (c :: map fst todo)) with (Some c :: filled (map fst todo)).
+    change (filled (v :: map snd todo)) with (Some v :: filled (map snd todo)).
+    rewrite <- !app_comm_cons.
+    rewrite (mrd_at4 Pv (filled (map snd kept)) Xv v _ (length P + length kept + length X))
+      by (rewrite filled_length, map_length; lia).
+    cbn [mbind]. unfold drop_zeros. cbn [filter snd]. fold (drop_zeros todo).
+    destruct (is_zero v) eqn:Ez; cbn [negb].
+    + cbn [mbind].
+      destruct (IH kept P Pv (X ++ [Some c]) (Xv ++ [Some v]) T Tv HP) as (X' & Xv' & Hrun & Hl1 & Hl2).
+      { rewrite !app_length. cbn [length]. lia. }
+      exists X', Xv'. rewrite app_length in Hrun, Hl2. cbn [length] in Hrun, Hl2.
+      rewrite <- !app_assoc in Hrun. cbn [app] in Hrun.
+      replace (length P + length kept + (length X + 1)) with (Datatypes.S (length P + length kept + length X)) in Hrun by lia.
+      split; [exact Hrun|]. split; [exact Hl1|lia].
+    + rewrite (mrd_at4 P (filled (map fst kept)) X c _ (length P + length kept + length X))
+        by (rewrite filled_length, map_length; lia).
+      cbn [mbind].
+      destruct X as [|x X1]; destruct Xv as [|y Xv1]; try (cbn [length] in HX; lia).
+      * cbn [app length].
+        rewrite (mwr_at2 P (filled (map fst kept)) (Some c) _ (length P + length kept) c)
+          by (rewrite filled_length, map_length; lia). cbn [mbind].
+        rewrite (mwr_at2 Pv (filled (map snd kept)) (Some v) _ (length P + length kept) v)
+          by (rewrite filled_length, map_length; lia). cbn [mbind].
+        destruct (IH (kept ++ [(c, v)]) P Pv [] [] T Tv HP eq_refl) as (X' & Xv' & Hrun & Hl1 & Hl2).
+        exists X', Xv'.
+        replace (kept ++ (c, v) :: drop_zeros todo) with ((kept ++ [(c, v)]) ++ drop_zeros todo) by (rewrite <- app_assoc; reflexivity).
+        set (K := (kept ++ [(c, v)]) ++ drop_zeros todo) in *.
+        rewrite !map_app, !filled_app, app_length in Hrun. cbn [length map fst snd filled app] in Hrun.
+        rewrite <- !app_assoc in Hrun. cbn [app] in Hrun.
+        replace (length P + (length kept + 1) + 0) with (Datatypes.S (length P + length kept + 0)) in Hrun by lia.
+        replace (length P + (length kept + 1)) with (Datatypes.S (length P + length kept)) in Hrun by lia.
+        split; [|split; [exact Hl1|cbn [length] in *; lia]].
+        exact Hrun.
+      * cbn [app length].
+        rewrite (mwr_at2 P (filled (map fst kept)) x _ (length P + length kept) c)
+          by (rewrite filled_length, map_length; lia). cbn [mbind].
+        rewrite (mwr_at2 Pv (filled (map snd kept)) y _ (length P + length kept) v)
+          by (rewrite filled_length, map_length; lia). cbn [mbind].
+        destruct (IH (kept ++ [(c, v)]) P Pv (X1 ++ [Some c]) (Xv1 ++ [Some v]) T Tv HP) as (X' & Xv' & Hrun & Hl1 & Hl2).
+        { rewrite !app_length. cbn [length] in *. lia. }
+        exists X', Xv'.
+        replace (kept ++ (c, v) :: drop_zeros todo) with ((kept ++ [(c, v)]) ++ drop_zeros todo) by (rewrite <- app_assoc; reflexivity).
+        set (K := (kept ++ [(c, v)]) ++ drop_zeros todo) in *.
+        rewrite !map_app, !filled_app, !app_length in Hrun. cbn [length map fst snd filled app] in Hrun.
+        rewrite <- !app_assoc in Hrun. cbn [app] in Hrun.
+        replace (length P + (length kept + 1) + (length X1 + 1)) with (Datatypes.S (length P + length kept + Datatypes.S (length X1))) in Hrun by lia.
+        replace (length P + (length kept + 1)) with (Datatypes.S (length P + length kept)) in Hrun by lia.
+        split; [|split; [exact Hl1|rewrite app_length in Hl2; cbn [length] in *; lia]].
+        exact Hrun.
+Qed.
+End Compact.
+
+(* ------------------------------------------------------------------ "refresh work" *)
+Lemma reset_fold {Y E} (g : E -> nat) (z : Y) (n : nat) : forall (r : list E) (wk : list Y),
+  length wk = n -> Forall (fun e => g e < n) r ->
+  (forall c, c < n -> ~ In c (map g r) -> nth c wk z = z) ->
+  mfoldl (fun e wk => mwr wk (g e) z) r (filled wk) = Done (filled (repeat z n)).
+Proof.
+  induction r as [|e r IH]; intros wk Hl Hn Hz.
+  - cbn [mfoldl]. f_equal. f_equal. apply nth_ext with (d := z) (d' := z); [rewrite repeat_length; exact Hl|].
+    intros c Hc. rewrite Hz by (try intros []; lia). symmetry. apply nth_repeat.
+  - inversion Hn as [|? ? He Hn']; subst. cbn [mfoldl]. rewrite mwr_filled by exact He. cbn [mbind].
+    apply IH; [apply upd_length|exact Hn'|].
+    intros c Hc Hnin. rewrite upd_nth by exact He. destruct (Nat.eqb_spec c (g e)) as [->|Hne]; [reflexivity|].
+    apply Hz; [exact Hc|]. cbn [map In]. intros [H|H]; [congruence|contradiction].
+Qed.
+
+(* ------------------------------------------------------------------ facts about the list model of a row *)
+Section RowFacts.
+Context {S : Scalar}.
+Local Notation row := (list (nat * S)).
+Local Notation wrow := (@wrow S).
+Variable i : nat.
+
+Lemma sstep_hasd_mono (r : row) : forall w : wrow, whasd w = true -> whasd (fold_left (sstep i) r w) = true.
+Proof.
+  induction r as [|e r IH]; intros w H; [exact H|]. cbn [fold_left]. apply IH. unfold sstep.
+  destruct (Nat.ltb (fst e) i); [exact H|]. destruct (Nat.eqb (fst e) i); [reflexivity|exact H].
+Qed.
+Lemma scatter_hasd (r : row) : forall w : wrow, In i (map fst r) -> whasd (fold_left (sstep i) r w) = true.
+Proof.
+  induction r as [|e r IH]; intros w H; [contradiction|]. cbn [fold_left]. cbn [map In] in H.
+  destruct H as [H|H]; [|apply IH; exact H].
+  apply sstep_hasd_mono. unfold sstep. rewrite H, Nat.ltb_irrefl, Nat.eqb_refl. reflexivity.
+Qed.
+Lemma sstep_L_mono (r : row) c : forall w : wrow, In c (map fst (wL w)) -> In c (map fst (wL (fold_left (sstep i) r w))).
+Proof.
+  induction r as [|e r IH]; intros w H; [exact H|]. cbn [fold_left]. apply IH. unfold sstep.
+  destruct (Nat.ltb (fst e) i); [|destruct (Nat.eqb (fst e) i); exact H].
+  cbn [wL]. rewrite map_app. apply in_or_app. left. exact H.
+Qed.
+Lemma scatter_L (r : row) : forall (w : wrow) e, In e r -> fst e < i -> In (fst e) (map fst (wL (fold_left (sstep i) r w))).
+Proof.
+  induction r as [|e0 r IH]; intros w e H Hlt; [contradiction|]. cbn [fold_left].
+  destruct H as [->|H]; [|apply IH; assumption].
+  apply sstep_L_mono. unfold sstep. destruct (Nat.ltb_spec (fst e) i); [|lia].
+  cbn [wL]. rewrite map_app. apply in_or_app. right. left. reflexivity.
+Qed.
+Lemma sstep_wptr_other (Ls Us : list row) (w : wrow) e c : c <> fst e -> wptr i Ls Us (sstep i w e) c = wptr i Ls Us w c.
+Proof.
+  intro Hc. unfold sstep, wptr.
+  destruct (Nat.ltb (fst e) i); cbn [wL whasd wU].
+  - rewrite map_app. cbn [map]. rewrite lastidx_snoc_other by congruence. reflexivity.
+  - destruct (Nat.eqb_spec (fst e) i) as [Heq|Hne]; cbn [wL whasd wU].
+    + destruct (Nat.ltb c i); [reflexivity|]. destruct (Nat.eqb_spec c i); [congruence|reflexivity].
+    + rewrite map_app. cbn [map]. rewrite lastidx_snoc_other by congruence. reflexivity.
+Qed.
+Lemma scatter_wptr_other (Ls Us : list row) (r : row) c : forall w : wrow, ~ In c (map fst r) ->
+  wptr i Ls Us (fold_left (sstep i) r w) c = wptr i Ls Us w c.
+Proof.
+  induction r as [|e r IH]; intros w H; [reflexivity|]. cbn [fold_left]. cbn [map In] in H.
+  rewrite IH by tauto. apply sstep_wptr_other. intro E. apply H. left. symmetry. exact E.
+Qed.
+Lemma wptr_empty (Ls Us : list row) jd c : wptr i Ls Us (mkW [] jd false []) c = None.
+Proof. unfold wptr. cbn [wL wU whasd map lastidx option_map]. destruct (Nat.ltb c i); [reflexivity|]. destruct (Nat.eqb c i); reflexivity. Qed.
+
+Lemma elim_shape (Us : list row) (D : list S) : forall (ents : row) (w w' : wrow),
+  ilu0_elim i Us D ents w = Ilu.Ok w' -> wshape w' = wshape w.
+Proof.
+  induction ents as [|e ents IH]; intros w w' H.
+  - cbn in H. injection H as <-. reflexivity.
+  - cbn [ilu0_elim] in H. destruct (Nat.leb i (fst e)).
+    + destruct (Nat.eqb (fst e) i); [|discriminate]. destruct (is_zero (wd w)); [discriminate|].
+      injection H as <-. reflexivity.
+    + apply IH in H. rewrite H, (fold_wupd_shape i). apply wupd_shape.
+Qed.
+End RowFacts.
+
+(* ------------------------------------------------------------------ the state between two rows *)
+Section Between.
+Context {S : Scalar}.
+Local Notation row := (list (nat * S)).
+Local Notation wrow := (@wrow S).
+
+Definition between (n : nat) (Ls Us : list row) (D : list S) (tlc : marr nat) (tlv : marr S) (tuc : marr nat) (tuv : marr S) : ist S :=
+  mkI (filled (ptrs Ls) ++ fresh (n - length Ls))
+      (filled (map fst (concat Ls)) ++ tlc) (filled (map snd (concat Ls)) ++ tlv)
+      (filled (ptrs Us) ++ fresh (n - length Us))
+      (filled (map fst (concat Us)) ++ tuc) (filled (map snd (concat Us)) ++ tuv)
+      (filled D ++ fresh (n - length D)) (filled (repeat None n)) (length (concat Ls)) (length (concat Us)).
+
+Lemma between_rowst n i Ls Us D tlc tlv tuc tuv jd : length Ls = i -> length Us = i -> length D = i -> i < n ->
+  between n Ls Us D tlc tlv tuc tuv
+  = rowst n i Ls Us D (filled (ptrs Ls) ++ fresh (n - i)) (filled (ptrs Us) ++ fresh (n - i)) tlc tlv tuc tuv (mkW [] jd false []).
+Proof.
+  intros HL HU HD Hi. unfold between, rowst. cbn [wL wd whasd wU map filled app length].
+  rewrite HL, HU, HD, !Nat.add_0_r. f_equal.
+  - rewrite (fresh_pos (n - i)) by lia. reflexivity.
+  - f_equal. symmetry. unfold wkl. apply map_none_seq. intro c. apply wptr_empty.
+Qed.
+End Between.
+Lemma snoc_ptr {X} (Ls : list (list X)) x n i : length Ls = i -> i < n ->
+  filled (ptrs Ls) ++ Some (length (concat Ls) + length x) :: fresh (n - i - 1)
+  = filled (ptrs (Ls ++ [x])) ++ fresh (n - length (Ls ++ [x])).
+Proof.
+  intros H Hi. rewrite ptrs_snoc, filled_app, <- app_assoc, app_length, H. cbn [length filled map app].
+  replace (n - (i + 1)) with (n - i - 1) by lia. reflexivity.
+Qed.
+Lemma snoc_arr {X Y} (f : X -> Y) (Ls : list (list X)) x (T : marr Y) :
+  filled (map f (concat Ls)) ++ filled (map f x) ++ T = filled (map f (concat (Ls ++ [x]))) ++ T.
+Proof. rewrite concat_app. cbn [concat]. rewrite app_nil_r, map_app, filled_app, <- app_assoc. reflexivity. Qed.
+Lemma snoc_dd {X} (D : list X) d n i : length D = i -> i < n ->
+  filled D ++ Some d :: fresh (n - i - 1) = filled (D ++ [d]) ++ fresh (n - length (D ++ [d])).
+Proof.
+  intros H Hi. rewrite filled_app, <- app_assoc, app_length, H. cbn [length filled map app].
+  replace (n - (i + 1)) with (n - i - 1) by lia. reflexivity.
+Qed.
+Lemma snoc_len {X} (Ls : list (list X)) x : length (concat Ls) + length x = length (concat (Ls ++ [x])).
+Proof. rewrite concat_app, app_length. cbn [concat]. rewrite app_nil_r. reflexivity. Qed.
+
+Section RowOk.
+Context {S : Scalar}.
+Local Notation row := (list (nat * S)).
+
+Lemma compact_row (wl : row) (P : marr nat) (Pv : marr S) T Tv : length P = length Pv ->
+  exists X' Xv',
+    mfor (length P) (length wl) cbody (P ++ filled (map fst wl) ++ T, Pv ++ filled (map snd wl) ++ Tv, length P)
+    = Done (P ++ filled (map fst (drop_zeros wl)) ++ X' ++ T, Pv ++ filled (map snd (drop_zeros wl)) ++ Xv' ++ Tv,
+            length P + length (drop_zeros wl)) /\
+    length X' = length Xv' /\ length X' + length (drop_zeros wl) = length wl.
+Proof.
+  intro H. destruct (compact_loop wl [] P Pv [] [] T Tv H eq_refl) as (X' & Xv' & Hrun & H1 & H2).
+  exists X', Xv'.
+  change (filled (map fst (@nil (nat * S)))) with (@nil (option nat)) in Hrun.
+  change (filled (map snd (@nil (nat * S)))) with (@nil (option S)) in Hrun.
+  cbn [app length] in Hrun, H2. rewrite !Nat.add_0_r in Hrun. split; [exact Hrun|]. split; [exact H1|exact H2].
+Qed.
+
+Lemma scatter_U_in i (r : row) : forall (w : @wrow S) c,
+  In c (map fst (wU (fold_left (sstep i) r w))) -> In c (map fst (wU w)) \/ In c (map fst r).
+Proof.
+  induction r as [|e r IH]; intros w c H; [left; exact H|]. cbn [fold_left] in H. apply IH in H.
+  destruct H as [H|H]; [|right; right; exact H]. unfold sstep in H.
+  destruct (Nat.ltb (fst e) i); [left; exact H|]. destruct (Nat.eqb (fst e) i); [left; exact H|].
+  cbn [wU] in H. rewrite map_app in H. apply in_app_or in H as [H|[H|[]]]; [left; exact H|right; left; exact H].
+Qed.
+
+Lemma flat_ptr_reads m (done : list row) (r : row) (todo : list row) :
+  let F := flat_of (mkCrs m (done ++ r :: todo)) in
+  ird (fptr F) (length done) = Done (length (concat done)) /\
+  ird (fptr F) (length done + 1) = Done (length (concat done) + length r).
+Proof.
+  intro F.
+  assert (Hlen : length (fptr F) = Datatypes.S (length (done ++ r :: todo))) by apply flat_ptr_length.
+  rewrite app_length in Hlen. cbn [length] in Hlen.
+  split.
+  - rewrite (ird_ok _ (length done) 0) by lia. f_equal. unfold F, flat_of. cbn [fptr rows].
+    apply (@flat_ptr_nth (nat * S) done (r :: todo)).
+  - rewrite (ird_ok _ (length done + 1) 0) by lia. f_equal. unfold F, flat_of. cbn [fptr rows].
+    replace (done ++ r :: todo) with ((done ++ [r]) ++ todo) by (rewrite <- app_assoc; reflexivity).
+    replace (length done + 1) with (length (done ++ [r])) by (rewrite app_length; reflexivity).
+    etransitivity; [apply (@flat_ptr_nth (nat * S) (done ++ [r]) todo)|].
+    rewrite concat_app, app_length. cbn [concat]. rewrite app_nil_r. reflexivity.
+Qed.
+
+Lemma row_ok (m n i : nat) (done : list row) (r : row) (todo : list row) (Ls Us : list row) (D : list S)
+      tlc tlv tuc tuv jd :
+  length done = i -> length Ls = i -> length Us = i -> length D = i -> i < n ->
+  Forall (Forall (fun e : nat * S => fst e < n)) Us ->
+  Forall (fun e : nat * S => fst e < n) r -> In i (map fst r) ->
+  lcnt i r <= length tlc -> lcnt i r <= length tlv -> ucnt i r <= length tuc -> ucnt i r <= length tuv ->
+  match ilu0_row (Ls, Us, D) i r jd with
+  | Ilu.Err e => ilu0_row_body (flat_of (mkCrs m (done ++ r :: todo))) i (between n Ls Us D tlc tlv tuc tuv) = Done (EThrow e)
+  | Ilu.Ok (Ls', Us', D') =>
+      exists tlc' tlv' tuc' tuv',
+        ilu0_row_body (flat_of (mkCrs m (done ++ r :: todo))) i (between n Ls Us D tlc tlv tuc tuv)
+        = Done (EOk (between n Ls' Us' D' tlc' tlv' tuc' tuv')) /\
+        length Ls' = Datatypes.S i /\ length Us' = Datatypes.S i /\ length D' = Datatypes.S i /\
+        Forall (Forall (fun e : nat * S => fst e < n)) Us' /\
+        length tlc <= length tlc' + lcnt i r /\ length tlv <= length tlv' + lcnt i r /\
+        length tuc <= length tuc' + ucnt i r /\ length tuv <= length tuv' + ucnt i r
+  end.
+Proof.
+  intros Hdone HL HU HD Hi HUn Hrn Hdiag C1 C2 C3 C4.
+  set (F := flat_of (mkCrs m (done ++ r :: todo))).
+  remember (ilu0_row_body F i (between n Ls Us D tlc tlv tuc tuv)) as res eqn:Hres.
+  unfold ilu0_row. rewrite scatter_fold.
+  set (w1 := fold_left (sstep i) r (mkW [] jd false [])) in *.
+  assert (Hh1 : whasd w1 = true) by (apply scatter_hasd; exact Hdiag).
+  assert (HL1 : forall e, In e r -> fst e < i -> In (fst e) (map fst (wL w1))) by (intros; apply scatter_L; assumption).
+  destruct (flat_ptr_reads m done r todo) as [Ep Ee]. fold F in Ep, Ee. rewrite Hdone in Ep, Ee.
+  assert (Hrd : forall k, k < length r ->
+            ird (fcol F) (length (concat done) + k) = Done (fst (nth k r (0, s0))) /\
+            ird (fval F) (length (concat done) + k) = Done (snd (nth k r (0, s0))))
+    by (intros k Hk; apply flat_reads; exact Hk).
+  unfold ilu0_row_body in Hres. rewrite Ep, Ee in Hres. cbn [mbind] in Hres.
+  replace (length (concat done) + length r - length (concat done)) with (length r) in Hres by lia.
+  rewrite (mfor_list (0, s0) (scat_h i)) in Hres.
+  2:{ intros k s Hk. destruct (Hrd k Hk) as [Hc Hv].
+      rewrite (scatter_body_h i F _ _ _ s Hc Hv), <- surjective_pairing. reflexivity. }
+  rewrite (between_rowst n i Ls Us D tlc tlv tuc tuv jd HL HU HD Hi) in Hres.
+  rewrite (scatter_ok n i Ls Us D HD Hi) in Hres by assumption. fold w1 in Hres. cbn [mbind] in Hres.
+  set (tlc1 := skipn (lcnt i r) tlc) in *. set (tlv1 := skipn (lcnt i r) tlv) in *.
+  set (tuc1 := skipn (ucnt i r) tuc) in *. set (tuv1 := skipn (ucnt i r) tuv) in *.
+  rewrite !rst_ilp, !rst_iup, !rst_ilh, !rst_iuh in Hres.
+  rewrite (fresh_pos (n - i)) in Hres by lia.
+  rewrite (mwr_app_len _ _ _ _ (i + 1)) in Hres by (rewrite filled_length, ptrs_length; lia). cbn [mbind] in Hres.
+  rewrite (mwr_app_len _ _ _ _ (i + 1)) in Hres by (rewrite filled_length, ptrs_length; lia). cbn [mbind] in Hres.
+  set (lp1 := filled (ptrs Ls) ++ Some (length (concat Ls) + length (wL w1)) :: fresh (n - i - 1)) in *.
+  set (up1 := filled (ptrs Us) ++ Some (length (concat Us) + length (wU w1)) :: fresh (n - i - 1)) in *.
+  match type of Hres with context [elim_loop F i _ _ ?st] =>
+    change st with (rowst n i Ls Us D lp1 up1 tlc1 tlv1 tuc1 tuv1 w1) in Hres end.
+  assert (Hup1 : forall c, c <= i -> mrd up1 c = Done (length (concat (firstn c Us))))
+    by (intros c Hc; unfold up1; apply ptrs_rd; lia).
+  rewrite (elim_ok n i Ls Us D HD Hi lp1 up1 tlc1 tlv1 tuc1 tuv1 HU Hup1 HUn F r (length (concat done)) w1 Hh1 Hrn HL1) in Hres
+    by (intros k Hk; apply Hrd; exact Hk).
+  destruct (ilu0_elim i Us D r w1) as [w2|err] eqn:Eel; cbn [mbind] in Hres; [|exact Hres].
+  pose proof (elim_shape i Us D r w1 w2 Eel) as Hsh.
+  assert (Hh2 : whasd w2 = true) by (rewrite (wshape_hasd _ _ Hsh); exact Hh1).
+  assert (HlL : length (wL w2) = length (wL w1))
+    by (rewrite <- (map_length fst (wL w2)), (wshape_L _ _ Hsh), map_length; reflexivity).
+  assert (HlU : length (wU w2) = length (wU w1))
+    by (rewrite <- (map_length fst (wU w2)), (wshape_U _ _ Hsh), map_length; reflexivity).
+  (* compaction of L *)
+  rewrite !compact_unfold in Hres. rewrite !rst_ilp, !rst_iup, !rst_ilc, !rst_ilv, !rst_iuc, !rst_iuv in Hres.
+  assert (Elp0 : mrd lp1 i = Done (length (concat Ls))).
+  { unfold lp1. rewrite ptrs_rd by lia. rewrite firstn_all2 by lia. reflexivity. }
+  assert (Elp1 : mrd lp1 (i + 1) = Done (length (concat Ls) + length (wL w1))).
+  { unfold lp1. apply mrd_app_len. rewrite filled_length, ptrs_length. lia. }
+  assert (Eup0 : mrd up1 i = Done (length (concat Us))).
+  { unfold up1. rewrite ptrs_rd by lia. rewrite firstn_all2 by lia. reflexivity. }
+  assert (Eup1 : mrd up1 (i + 1) = Done (length (concat Us) + length (wU w1))).
+  { unfold up1. apply mrd_app_len. rewrite filled_length, ptrs_length. lia. }
+  rewrite Elp0, Elp1 in Hres. cbn [mbind] in Hres.
+  replace (length (concat Ls) + length (wL w1) - length (concat Ls)) with (length (wL w2)) in Hres by lia.
+  destruct (compact_row (wL w2) (filled (map fst (concat Ls))) (filled (map snd (concat Ls))) tlc1 tlv1)
+    as (XL & XLv & HrunL & HXL1 & HXL2); [rewrite !filled_length, !map_length; reflexivity|].
+  rewrite filled_length, map_length in HrunL.
+  match type of Hres with _ = mbind ?X _ =>
+    let H := fresh in assert (H : X = _) by exact HrunL; rewrite H in Hres; clear H end. cbn [mbind] in Hres.
+  rewrite Eup0, Eup1 in Hres. cbn [mbind] in Hres.
+  replace (length (concat Us) + length (wU w1) - length (concat Us)) with (length (wU w2)) in Hres by lia.
+  destruct (compact_row (wU w2) (filled (map fst (concat Us))) (filled (map snd (concat Us))) tuc1 tuv1)
+    as (XU & XUv & HrunU & HXU1 & HXU2); [rewrite !filled_length, !map_length; reflexivity|].
+  rewrite filled_length, map_length in HrunU.
+  match type of Hres with _ = mbind ?X _ =>
+    let H := fresh in assert (H : X = _) by exact HrunU; rewrite H in Hres; clear H end. cbn [mbind fst snd] in Hres.
+  unfold lp1, up1 in Hres.
+  rewrite (mwr_app_len _ _ _ _ (i + 1)) in Hres by (rewrite filled_length, ptrs_length; lia). cbn [mbind] in Hres.
+  rewrite (mwr_app_len _ _ _ _ (i + 1)) in Hres by (rewrite filled_length, ptrs_length; lia). cbn [mbind] in Hres.
+  rewrite (mfor_list (0, s0) (fun (e : nat * S) wk => mwr wk (fst e) None)) in Hres.
+  2:{ intros k s Hk. destruct (Hrd k Hk) as [Hc _]. rewrite Hc. reflexivity. }
+  rewrite rst_iwk, rst_idd in Hres.
+  rewrite (reset_fold fst None n r) in Hres.
+  2:{ apply wkl_length. }
+  2:{ exact Hrn. }
+  2:{ intros c Hc Hnin. unfold wkl. rewrite nth_map_seq by exact Hc.
+      rewrite (wptr_shape i Ls Us w2 w1 c Hsh). unfold w1. rewrite scatter_wptr_other by exact Hnin. apply wptr_empty. }
+  cbn [mbind] in Hres. rewrite Hh2 in Hres.
+  exists (XL ++ tlc1), (XLv ++ tlv1), (XU ++ tuc1), (XUv ++ tuv1).
+  split; [|split; [|split; [|split; [|split]]]].
+  - rewrite Hres. f_equal. f_equal. unfold between.
+    f_equal; first [apply snoc_ptr; assumption | apply snoc_arr | apply snoc_dd; assumption | apply snoc_len].
+  - rewrite app_length, Nat.add_1_r. f_equal. exact HL.
+  - rewrite app_length, Nat.add_1_r. f_equal. exact HU.
+  - rewrite app_length, Nat.add_1_r. f_equal. exact HD.
+  - apply Forall_app. split; [exact HUn|]. constructor; [|constructor].
+    rewrite Forall_forall. intros e He. unfold drop_zeros in He. apply filter_In in He as [He _].
+    apply (in_map fst) in He. rewrite (wshape_U _ _ Hsh) in He. apply scatter_U_in in He as [[]|He].
+    apply in_map_iff in He as (e' & <- & He'). rewrite Forall_forall in Hrn. apply Hrn. exact He'.
+  - unfold tlc1, tlv1, tuc1, tuv1. rewrite !app_length, !skipn_length. lia.
+Qed.
+End RowOk.
+(* ------------------------------------------------------------------ all rows; the counting pass; the theorem *)
+Section Final.
+Context {S : Scalar}.
+Local Notation row := (list (nat * S)).
+
+Fixpoint lrem (i : nat) (rs : list row) : nat :=
+  match rs with [] => 0 | r :: t => lcnt i r + lrem (Datatypes.S i) t end.
+Fixpoint urem (i : nat) (rs : list row) : nat :=
+  match rs with [] => 0 | r :: t => ucnt i r + urem (Datatypes.S i) t end.
+
+Lemma rows_ok (m n : nat) (junk : vec S) : forall (rs done Ls Us : list row) (D : list S) tlc tlv tuc tuv i,
+  length done = i -> length Ls = i -> length Us = i -> length D = i -> i + length rs = n ->
+  Forall (Forall (fun e : nat * S => fst e < n)) Us ->
+  Forall (Forall (fun e : nat * S => fst e < n)) rs ->
+  (forall k, k < length rs -> In (i + k) (map fst (nth k rs []))) ->
+  lrem i rs <= length tlc -> lrem i rs <= length tlv -> urem i rs <= length tuc -> urem i rs <= length tuv ->
+  match ilu0_rows (Ls, Us, D) i rs junk with
+  | Ilu.Err e => ilu0_rows_ll (flat_of (mkCrs m (done ++ rs))) i (length rs) (between n Ls Us D tlc tlv tuc tuv)
+                 = Done (EThrow e)
+  | Ilu.Ok (Ls', Us', D') =>
+      exists tlc' tlv' tuc' tuv',
+        ilu0_rows_ll (flat_of (mkCrs m (done ++ rs))) i (length rs) (between n Ls Us D tlc tlv tuc tuv)
+        = Done (EOk (between n Ls' Us' D' tlc' tlv' tuc' tuv')) /\
+        length Ls' = n /\ length Us' = n /\ length D' = n
+  end.
+Proof.
+  induction rs as [|r rs IH]; intros done Ls Us D tlc tlv tuc tuv i Hdone HL HU HD Hn HUn Hrs Hdiag C1 C2 C3 C4.
+  - cbn [ilu0_rows ilu0_rows_ll length]. cbn [length] in Hn. rewrite Nat.add_0_r in Hn. subst n.
+    exists tlc, tlv, tuc, tuv. split; [reflexivity|]. split; [exact HL|]. split; [exact HU|exact HD].
+  - cbn [length ilu0_rows ilu0_rows_ll]. cbn [length lrem urem] in *.
+    inversion Hrs as [|? ? Hr Hrs']; subst.
+    pose proof (row_ok m (length done + Datatypes.S (length rs)) (length done) done r rs Ls Us D tlc tlv tuc tuv (vget junk (length done))
+                  eq_refl HL HU HD ltac:(lia) HUn Hr) as Hrow.
+    pose proof (Hdiag 0 ltac:(lia)) as Hd0. rewrite Nat.add_0_r in Hd0. cbn [nth] in Hd0.
+    specialize (Hrow Hd0 ltac:(lia) ltac:(lia) ltac:(lia) ltac:(lia)).
+    destruct (ilu0_row (Ls, Us, D) (length done) r (vget junk (length done))) as [[[Ls1 Us1] D1]|err].
+    + destruct Hrow as (tlc1 & tlv1 & tuc1 & tuv1 & Hrun & HL1 & HU1 & HD1 & HUn1 & D1' & D2' & D3' & D4').
+      rewrite Hrun. cbn [mbind].
+      specialize (IH (done ++ [r]) Ls1 Us1 D1 tlc1 tlv1 tuc1 tuv1 (Datatypes.S (length done))).
+      rewrite <- app_assoc in IH. cbn [app] in IH. apply IH; try assumption; try lia.
+      * rewrite app_length. cbn [length]. lia.
+      * intros k Hk. replace (Datatypes.S (length done) + k) with (length done + Datatypes.S k) by lia.
+        apply (Hdiag (Datatypes.S k)). lia.
+    + rewrite Hrow. reflexivity.
+Qed.
+
+(* the counting pass *)
+Lemma count_row i : forall (r : row) (acc : nat * nat),
+  mfoldl (fun (e : nat * S) (acc : nat * nat) =>
+            Done (if Nat.ltb (fst e) i then (Datatypes.S (fst acc), snd acc)
+                  else if Nat.ltb i (fst e) then (fst acc, Datatypes.S (snd acc)) else acc)) r acc
+  = Done (fst acc + lcnt i r, snd acc + ucnt i r).
+Proof.
+  induction r as [|e r IH]; intro acc.
+  - cbn. rewrite !Nat.add_0_r. destruct acc; reflexivity.
+  - cbn [mfoldl mbind]. rewrite IH, lcnt_cons, ucnt_cons. unfold lcnt, ucnt. cbn [filter].
+    destruct (Nat.ltb_spec (fst e) i); destruct (Nat.ltb_spec i (fst e)); try lia; cbn [fst snd length]; f_equal; f_equal; lia.
+Qed.
+
+Lemma count_ok (A : crs S) : forall (rs done : list row) (acc : nat * nat),
+  rows A = done ++ rs ->
+  mfor (length done) (length rs) (fun i acc =>
+    row_loop (fptr (flat_of A)) i (fun j acc =>
+      c <-- ird (fcol (flat_of A)) j ;;
+      Done (if Nat.ltb c i then (Datatypes.S (fst acc), snd acc)
+            else if Nat.ltb i c then (fst acc, Datatypes.S (snd acc)) else acc)) acc) acc
+  = Done (fst acc + lrem (length done) rs, snd acc + urem (length done) rs).
+Proof.
+  induction rs as [|r rs IH]; intros done acc HA.
+  - cbn. rewrite !Nat.add_0_r. destruct acc; reflexivity.
+  - cbn [length]. rewrite mfor_step.
+    rewrite (row_loop_flat A (length done)
+               (fun (e : nat * S) (acc : nat * nat) =>
+                  Done (if Nat.ltb (fst e) (length done) then (Datatypes.S (fst acc), snd acc)
+                        else if Nat.ltb (length done) (fst e) then (fst acc, Datatypes.S (snd acc)) else acc))).
+    2:{ unfold nrows. rewrite HA, app_length. cbn [length]. lia. }
+    2:{ intros j s c v Hc _. rewrite Hc. reflexivity. }
+    rewrite HA, app_nth2, Nat.sub_diag by lia. cbn [nth].
+    rewrite count_row. cbn [mbind].
+    replace (Datatypes.S (length done)) with (length (done ++ [r])) by (rewrite app_length; cbn [length]; lia).
+    rewrite IH by (rewrite HA, <- app_assoc; reflexivity).
+    cbn [fst snd lrem urem]. rewrite app_length. cbn [length]. rewrite Nat.add_1_r. f_equal. f_equal; lia.
+Qed.
+
+Lemma first_col_in (r : row) i v : first_col r i = Some v -> In i (map fst r).
+Proof.
+  induction r as [|[c x] r IH]; simpl; [discriminate|].
+  destruct (Nat.eqb_spec c i) as [->|_]; [intros _; left; reflexivity|intro H; right; apply IH; exact H].
+Qed.
+Lemma firstn_app_exact {X} (a b : list X) k : length a = k -> firstn k (a ++ b) = a.
+Proof. intros <-. rewrite firstn_app, Nat.sub_diag, firstn_all. cbn [firstn]. apply app_nil_r. Qed.
+
+Lemma app_fresh_full {X Y} (a : marr X) (l : list Y) n : length l = n -> a ++ fresh (n - length l) = a.
+Proof. intros ->. rewrite Nat.sub_diag. apply app_nil_r. Qed.
+
+Definition ilu0_agrees (A : crs S) (junk : vec S) (r : mres (eres S)) : Prop :=
+  match Ilu.ilu0 A junk with
+  | Ilu.Err e => r = Done (EThrow e)
+  | Ilu.Ok (L, U, D) =>
+      exists st, r = Done (EOk st) /\
+        ilp st = filled (fptr (flat_of L)) /\ ilh st = length (fcol (flat_of L)) /\
+        firstn (ilh st) (ilc st) = filled (fcol (flat_of L)) /\
+        firstn (ilh st) (ilv st) = filled (fval (flat_of L)) /\
+        iup st = filled (fptr (flat_of U)) /\ iuh st = length (fcol (flat_of U)) /\
+        firstn (iuh st) (iuc st) = filled (fcol (flat_of U)) /\
+        firstn (iuh st) (iuv st) = filled (fval (flat_of U)) /\
+        idd st = filled D
+  end.
+
+(* rows in any order, duplicates allowed *)
+Theorem ll_ilu0_gen (A : crs S) (junk : vec S) :
+  wf A = true -> ncols A <= nrows A -> has_diag A = true ->
+  ilu0_agrees A junk (ll_ilu0 (flat_of A)).
+Proof.
+  intros Hwf Hsq Hdiag. destruct A as [m rs]. unfold nrows in Hsq. cbn [ncols rows] in Hsq.
+  set (n := length rs) in *.
+  assert (Hrows : Forall (Forall (fun e : nat * S => fst e < n)) rs).
+  { unfold wf in Hwf. cbn [ncols rows] in Hwf. rewrite forallb_forall in Hwf. rewrite Forall_forall. intros r Hr.
+    specialize (Hwf r Hr). apply row_wf_iff in Hwf. rewrite Forall_forall in Hwf |- *. intros e He. specialize (Hwf e He). lia. }
+  assert (Hdg : forall k, k < length rs -> In (0 + k) (map fst (nth k rs []))).
+  { intros k Hk. unfold has_diag in Hdiag. cbn [rows] in Hdiag.
+    rewrite forallb_forall in Hdiag.
+    assert (Hlen : k < length (indexed rs)) by (unfold indexed; rewrite combine_length, seq_length; lia).
+    pose proof (Hdiag _ (nth_In _ (0, []) Hlen)) as H.
+    rewrite nth_indexed in H by exact Hk. cbn [fst snd] in H.
+    match type of H with match ?X with _ => _ end = _ => destruct X as [v|] eqn:E; [|discriminate H] end. apply first_col_in in E. exact E. }
+  unfold ll_ilu0, ilu0_count. change (fn (flat_of (mkCrs m rs))) with n.
+  pose proof (count_ok (mkCrs m rs) rs [] (0, 0) eq_refl) as Hc. cbn [length fst snd Nat.add] in Hc. fold n in Hc.
+  match goal with |- ilu0_agrees _ _ (mbind ?X _) =>
+    let H := fresh in assert (H : X = _) by exact Hc; rewrite H; clear H end.
+  cbn [mbind fst snd]. rewrite Nat.add_1_r.
+  change (mwr (fresh (Datatypes.S n)) 0 0) with (Done (Some 0 :: @fresh nat n)). cbn [mbind].
+  set (Lnz := lrem 0 rs). set (Unz := urem 0 rs).
+  match goal with |- ilu0_agrees _ _ (ilu0_rows_ll _ _ _ ?st) =>
+    replace st with (between n [] [] [] (@fresh nat Lnz) (@fresh S Lnz) (@fresh nat Unz) (@fresh S Unz))
+      by (unfold between; cbn [length concat map filled app ptrs psum psum_from]; rewrite Nat.sub_0_r; reflexivity) end.
+  pose proof (rows_ok m n junk rs [] [] [] [] (@fresh nat Lnz) (@fresh S Lnz) (@fresh nat Unz) (@fresh S Unz) 0
+                eq_refl eq_refl eq_refl eq_refl eq_refl (Forall_nil _) Hrows Hdg) as H.
+  rewrite !fresh_length in H. specialize (H (le_n _) (le_n _) (le_n _) (le_n _)). cbn [app] in H.
+  unfold ilu0_agrees, ilu0. cbn [rows nrows]. fold n.
+  match type of H with match ?X with _ => _ end => set (R := X) in * end.
+  match goal with |- context [ilu0_rows ?a ?b ?c ?d] => change (ilu0_rows a b c d) with R end.
+  destruct R as [[[Ls Us] D]|e]; [|exact H].
+  destruct H as (tlc & tlv & tuc & tuv & Hrun & HL & HU & HD).
+  exists (between n Ls Us D tlc tlv tuc tuv). split; [exact Hrun|].
+  unfold between, flat_of. cbn [ilp ilc ilv iup iuc iuv idd ilh iuh fptr fcol fval rows nrows ncols].
+  repeat split.
+  - exact (app_fresh_full (filled (ptrs Ls)) Ls n HL).
+  - symmetry. apply map_length.
+  - apply firstn_app_exact. rewrite filled_length, map_length. reflexivity.
+  - apply firstn_app_exact. rewrite filled_length, map_length. reflexivity.
+  - exact (app_fresh_full (filled (ptrs Us)) Us n HU).
+  - symmetry. apply map_length.
+  - apply firstn_app_exact. rewrite filled_length, map_length. reflexivity.
+  - apply firstn_app_exact. rewrite filled_length, map_length. reflexivity.
+  - exact (app_fresh_full (filled D) D n HD).
+Qed.
+End Final.
+
+(* the statement for matrices as amgcl hands them to ILU(0): rows sorted by column, no duplicates
+   (the hypothesis is not needed: ll_ilu0_gen) *)
+Theorem ll_ilu0_ok {S : Scalar} (A : crs S) (junk : vec S) :
+  wf A = true -> ncols A = nrows A ->
+  Forall (fun r => sorted_strict r = true) (rows A) ->
+  has_diag A = true ->
+  ilu0_agrees A junk (ll_ilu0 (flat_of A)).
+Proof. intros Hwf Hsq _ Hd. apply ll_ilu0_gen; [exact Hwf|rewrite Hsq; apply le_n|exact Hd]. Qed.
